@@ -31,6 +31,7 @@ def run(db, rep, feat, tier):
         rep.anchor("%s::%s" % (MOD, f) in db.mir, f)
     r1(db, rep)
     r2(db, rep)
+    r2c(db, rep)
     r3(db, rep)
     r4(db, rep)
     import props.c11 as c11
@@ -78,6 +79,43 @@ def r1(db, rep):
             r.decide(ok, "non_locals|read_before_kill", db.where(body, body["blocks"][wr[0]]["t"]["l"]),
                      "an instruction's writes are added to the kill set before its own reads are classified")
     rep.anchor(found, "closure handling one instruction in compute_non_local_scalars")
+
+
+def r2c(db, rep, rid="R2c"):
+    """Type-driven completeness of the read / written sets: which fields an Operation variant reads or writes follows from
+    the field types (every Expression field is read, every Scalar field is written)."""
+    from db import pat_leaves
+    r = rep.rule(rid, "K4", "Operation::scalars_read (and _mut) visits every Expression-typed field of every variant, "
+                 "scalars_written (and _mut) every Scalar-typed field; an arm shared by several variants binds nothing, so a "
+                 "variant with such a field cannot share it")
+    adt = db.adt(OP)
+    rep.anchor(adt is not None, OP)
+    fields = {v["name"]: {f["name"]: f["ty"] for f in v["fields"]} for v in adt["variants"]}
+    for fn, ty in (("scalars_read", "il::expression::Expression"), ("scalars_read_mut", "il::expression::Expression"),
+                   ("scalars_written", "il::scalar::Scalar"), ("scalars_written_mut", "il::scalar::Scalar")):
+        hb = db.hir.get("%s::%s" % (OP, fn))
+        rep.anchor(hb is not None, "%s::%s" % (OP, fn))
+        ms = [n for n in walk(hb["body"]) if n.get("k") == "Match"]
+        rep.anchor(bool(ms), "match in %s" % fn)
+        m = ms[0]
+        for vname, fs in sorted(fields.items()):
+            need = {f for f, t in fs.items() if t == ty}
+            got = None
+            for a in m["arms"]:
+                leaves = pat_leaves(a["pat"])
+                # in an or-pattern every alternative binds the same names; the body refers to one of the bindings
+                by_name = {}
+                for leaf in leaves:
+                    for f in leaf.get("fields", ()) if leaf.get("k") == "Struct" else ():
+                        if f["p"].get("k") == "Bind":
+                            by_name.setdefault(f["p"]["name"], set()).add(f["p"].get("hid"))
+                refs = {x["res"].get("hid") for x in walk(a["body"]) if x.get("k") == "Path" and "hid" in x.get("res", {})}
+                used_names = {nm for nm, hids in by_name.items() if hids & refs}
+                for leaf in leaves:
+                    if leaf.get("k") == "Struct" and last_seg(leaf["path"].get("def", "")) == vname:
+                        got = {f["n"] for f in leaf.get("fields", ()) if f["p"].get("k") == "Bind" and f["p"]["name"] in used_names}
+            r.decide(got is not None and need <= got, "%s|%s" % (fn, vname), db.where(hb),
+                     "%s does not visit field(s) %s of Operation::%s" % (fn, sorted(need - (got or set())), vname))
 
 
 def r2(db, rep):
